@@ -144,7 +144,7 @@ def _while_slots(prog: Any) -> List[int]:
 
 
 def counted_loops(small: Sequence[Atom], tier: str, version: int = 8, free: Atom = FREE, max_subs: int = 1,
-                  kinds: Sequence[str] = ("assert", "ret", "ret1", "err", "if", "while", "call")) -> Iterator[str]:
+                  kinds: Sequence[str] = ("assert", "ret", "ret1", "err", "if", "while", "call"), pad: Sequence[str] = ("int 7", "pop")) -> Iterator[str]:
     """L6 - every skeleton with at least one loop (size <= 3 quick / 4 thorough, 0..max_subs subroutines) whose
     loop conditions are counters (each loop iterates twice, then exits) x one tracked atom of the small
     alphabet in one of the other slots (or none); subroutines before/after main; a loop that opens a
@@ -174,7 +174,7 @@ def counted_loops(small: Sequence[Atom], tier: str, version: int = 8, free: Atom
                 for at in fills:
                     for subs_first in (False, True) if has_subs else (False,):
                         for el in entry_variants:
-                            src = core.render(prog, at, subs_first=subs_first, version=version, entry_loop=el)
+                            src = core.render(prog, at, subs_first=subs_first, version=version, entry_loop=el, pad=pad)
                             h = _h(src)
                             if h not in seen:
                                 seen.add(h)
